@@ -103,7 +103,7 @@ def gvr_expected(vs, m):
 def oracle(line, impl_line):
     mode, a = parse_case(line)
     o = parse_out(impl_line)
-    if o is None or o == [[888888]]:
+    if o is None or o == [[18446744073710440504]]:
         return "implementation crashed or panicked"
     if mode == "hdr_decode":
         d = a[0]
